@@ -175,11 +175,8 @@ func (c *XAConn) createOnceTxContext(ctx context.Context) bool {
 	return onceTx
 }
 
-func (c *XAConn) createNewTxOnExecIfNeed(ctx context.Context, f func() (types.ExecResult, error)) (types.ExecResult, error) {
-	var (
-		tx  driver.Tx
-		err error
-	)
+func (c *XAConn) createNewTxOnExecIfNeed(ctx context.Context, f func() (types.ExecResult, error)) (result types.ExecResult, err error) {
+	var tx driver.Tx
 
 	defer func() {
 		recoverErr := recover()
@@ -191,6 +188,10 @@ func (c *XAConn) createNewTxOnExecIfNeed(ctx context.Context, f func() (types.Ex
 					log.Errorf("conn at rollback error:%v", rollbackErr)
 				}
 			}
+		}
+		if recoverErr != nil {
+			// the statement did not complete: report it instead of returning a nil result and a nil error
+			result, err = nil, fmt.Errorf("xa exec panic: %v", recoverErr)
 		}
 	}()
 
